@@ -413,6 +413,31 @@ func checkC19(p *Prog, r *Report) {
 		}
 	}
 
+	// D4d a restart before, at or after the upgrade height yields the same state: the AOL, DID and PNFT data live in the stores
+	// only (a copy kept in keeper memory is empty after the restart and stale after a discarded block), and start-up code obtains
+	// no context through which it could write outside a block
+	{
+		cscope, _ := moduleScope(p, consensusEntries(p))
+		chans, _ := hiddenStateChannels(p, cscope, cscope)
+		var locs []string
+		for l := range chans {
+			if strings.Contains(l, "x/aol") || strings.Contains(l, "x/did") || strings.Contains(l, "x/pnft") {
+				locs = append(locs, l)
+			}
+		}
+		sort.Strings(locs)
+		for _, l := range locs {
+			ws, rs := chans[l][0], chans[l][1]
+			r.Fail(kp("STATE", "module-data-outside-stores:"+l), "AOL, DID and PNFT data live in the committed stores only: a node restarted around the upgrade height has the same data as one that kept running", p.Pos(ws[0].Instr.Pos()),
+				fmt.Sprintf("%s is written (%s) and read (%s) by block processing: after a restart it is empty, so the restarted node and the running one answer differently", l, describeAccess(p, ws[0]), describeAccess(p, rs[0])))
+		}
+		if len(locs) == 0 {
+			r.OK(kp("STATE", "module-data-outside-stores#none"), "AOL, DID and PNFT data live in the committed stores only: a node restarted around the upgrade height has the same data as one that kept running", "x/aol, x/did, x/pnft",
+				fmt.Sprintf("%d functions in block-processing scope; no long-lived memory of the three modules is both written and read", len(cscope)))
+		}
+		checkStartupCreatesNoContext(p, r, kp)
+	}
+
 	// D4b the upgrade block cannot fail because of custom-module state: code of an upgrade package that (transitively) reads
 	// aol/did/pnft entries must not create errors or panic. A handler error aborts the upgrade block on every node; whether a
 	// state-dependent check fails depends on the chain's history, which the release cannot know.
